@@ -77,7 +77,7 @@ def rand_array(rng, sr, sym, ndim=None, chargemaps=None, duals=None, charge=None
         par = refsym.par(sym, charge)
         if oddpos is None and par:
             oddpos = rng.randint(1, 50)
-        kw = dict(indices=ixs, charge=charge, blocks=blocks, oddpos=oddpos if par else None)
+        kw = dict(indices=ixs, charge=charge, blocks=blocks, oddpos=oddpos if (par or isinstance(oddpos, list)) else None)
     else:
         cls = getattr(sr, STATIC[sym]) if static else sr.AbelianArray
         kw = dict(indices=ixs, charge=charge, blocks=blocks)
